@@ -96,9 +96,9 @@ CHECKS = {
         'any number of rows, every cell and metadata value a string, URI, finite number / quantity of the written shape, valid date, time, null, marker, Remove, NA, boolean, reference with or without display name, Bin, coordinate, extended string (type names not starting with T F N M R I B C), or a list, dict or NESTED GRID (itself with metadata) of such values, '
         'nested to any depth, the text the model of the ZINC dumper writes is read back by the model of the reader\'s grid rule, of parse_grid (version sniffing included) and of parser.parse (C01_document: trailing-newline normalisation, grid splitting) as exactly that grid. '
         'By induction over metadata items, columns, rows, cells and nesting depth; every kind goes through the WHOLE per-version scalar alternation (pyparsing Or = longest match over 13 / 18 alternatives: the date, time, date-time and extended-string rules that also start with digits never win over a number, '
-        'the number rule reading leading digits loses to a date or time, NA wins over N). Date-times are proved per kind (C01_datetime: the written text is read back, through the whole alternation, as the raw ISO text and zone name; their interpretation is the iso8601 / pytz oracle); multi-grid documents are proved at the level of parser.parse / dumper.dump (C01_multi_grid); version 2.0 grids over the 2.0 kinds are proved too, without metadata (C01_grid_2_0) and WITH grid and column metadata (C01_grid_2_0_with_metadata: the 2.0 alternation, the reader\'s version gate over metadata, column metadata and cells, the writer under the pre-3.0 rules); whole 3.0 grids with DATE-TIMES ANYWHERE - as cells, inside lists and dicts to any depth, as grid and column metadata values - are proved in two-sided form (C01_full_grid_two_sided, C01_two_sided_values: written value / value read - the value itself for every other kind, the raw ISO text and zone name for a date-time), as are 2.0 grids with date-time cells (C01_grid_2_0_with_datetimes). The tie (writer model = hszinc.dump text, reader model = hszinc.parse value, on generated grids) '
+        'the number rule reading leading digits loses to a date or time, NA wins over N). Date-times are proved per kind (C01_datetime: the written text is read back, through the whole alternation, as the raw ISO text and zone name; their interpretation is the iso8601 / pytz oracle); multi-grid documents are proved at the level of parser.parse / dumper.dump (C01_multi_grid); version 2.0 grids over the 2.0 kinds are proved too, without metadata (C01_grid_2_0) and WITH grid and column metadata (C01_grid_2_0_with_metadata: the 2.0 alternation, the reader\'s version gate over metadata, column metadata and cells, the writer under the pre-3.0 rules); whole 3.0 grids with DATE-TIMES ANYWHERE - as cells, inside lists, dicts and nested grids to any depth, as grid and column metadata values - are proved in two-sided form (C01_full_grid_two_sided, C01_two_sided_values, C01_two_sided_relation: written value / value read - the value itself for every other kind, the raw ISO text and zone name for a date-time), as are 2.0 grids with date-time cells and metadata values (C01_grid_2_0_with_datetimes, C01_grid_2_0_two_sided). The tie (writer model = hszinc.dump text, reader model = hszinc.parse value, on generated grids) '
         'and the round-trip search on the implementation with a kind-strict comparator decide the rest.',
-   note='PARTIAL: date-times inside nested grids and in 2.0 metadata are covered by tie + search only; what a date-time text denotes is the iso8601 / pytz oracle. Number texts are CPython tokens (str(float) / float() are oracles), date-times are compared by instant, offset and zone name through pytz as oracle. '
+   note='PARTIAL: what a date-time text denotes is the iso8601 / pytz oracle (the theorems carry the raw ISO text and zone name). Number texts are CPython tokens (str(float) / float() are oracles), date-times are compared by instant, offset and zone name through pytz as oracle. '
         'pyparsing itself is modelled by typed combinators (Or = longest match, first on ties; parse actions; no implicit whitespace skipping as hszinc configures it). Print Assumptions: closed under the global context.',
    technique='Coq proof about combinator model of the pyparsing grammar + extracted-model correspondence (dump text, parse value) + round-trip search',
    design='DESIGN.md §3 C01'),
